@@ -15,6 +15,7 @@ import (
 	"github.com/vicanso/pike/config"
 
 	"pikemc/env"
+	"pikemc/vtime"
 )
 
 // C13 — content-encoding negotiation follows the documented decision table.
@@ -79,10 +80,11 @@ func init() {
 		compress.VerifFreshRegistries()
 		if c.Want("table") {
 			st := c.Stat("table", "enumeration")
-			st.Bounds = "11 clients (two with positive quality values) x 7 variant subsets x 9 sizes x 3 type cases x 3 bodies"
+			st.Bounds = "11 clients (two with positive quality values) x 7 variant subsets x 9 sizes x 6 type cases (two with upper-case letters) x 3 bodies"
 			var idx int64
 			cells := map[uint64]struct{}{}
 			custom := regexp.MustCompile(`image`)
+			upperFilter := regexp.MustCompile(`charset=UTF-8`) // the filter is a regular expression matched against the type as sent
 			for _, min := range []int{1, 16, 1024} {
 				for _, dl := range []int{-1, 0, 1} {
 					L := min + dl
@@ -102,7 +104,7 @@ func init() {
 								ct     string
 								filter *regexp.Regexp
 								match  bool
-							}{{"text/plain", nil, true}, {"image/png", custom, true}, {"image/png", nil, false}} {
+							}{{"text/plain", nil, true}, {"image/png", custom, true}, {"image/png", nil, false}, {"TEXT/HTML", nil, false}, {"application/json;charset=UTF-8", upperFilter, true}, {"application/json;charset=utf-8", upperFilter, false}} {
 								for _, ae := range c13Clients {
 									idx++
 									if !c.Mine(idx) {
@@ -388,6 +390,50 @@ func init() {
 			}
 			procEnv, procCfgKey = nil, ""
 			st.States, st.Transitions, st.Nontrivial = st.Execs, st.Execs, st.Execs
+			st.NOutcomes = int(st.Execs)
+		}
+		// the request that fills the cache is answered from what was stored, like every later hit
+		if c.Want("fill-request-like-hits") && c.Shard == 0 {
+			st := c.Stat("fill-request-like-hits", "enumeration")
+			st.Bounds = "origin encoding {identity, gzip, br} x body {3000, 20000 bytes} x 6 clients through the handler chain: the fetching request and the following hit get the same Content-Encoding and the same bytes"
+			cfg := env.BasicConfig(config.CacheConfig{})
+			cfg.Servers[0].CompressMinLength = "1kb"
+			e := getEnv(cfg, "c13-fill")
+			for _, oenc := range []string{"", "gzip", "br"} {
+				for _, L := range []int{3000, 20000} {
+					for _, ae := range []string{"gzip, br", "br", "gzip", "", "deflate", "gzip;q=0.8, br;q=0.9"} {
+						freshCaches(cfg)
+						vtime.Set(vtime.Base)
+						raw := []byte(c20Payload(L))
+						e.Respond = func(oc *env.OriginCall) env.OriginResp {
+							h := http.Header{"Cache-Control": {"max-age=60"}, "Content-Type": {"text/plain"}}
+							if oenc != "" {
+								h.Set("Content-Encoding", oenc)
+							}
+							return env.OriginResp{Status: 200, Header: h, Body: refEncode(oenc, raw)}
+						}
+						hdr := http.Header{}
+						if ae != "" {
+							hdr.Set("Accept-Encoding", ae)
+						}
+						r1 := e.Do(env.Req{URI: "/f", Rid: "r1", Header: hdr})
+						r2 := e.Do(env.Req{URI: "/f", Rid: "r2", Header: hdr})
+						e.Events()
+						st.Execs++
+						kase := map[string]interface{}{"origin_encoding": oenc, "len": L, "accept": ae}
+						if r1.Status != 200 || r2.Status != 200 || r1.XStatus != "fetching" || r2.XStatus != "hit" {
+							c.Violation("fill-request-like-hits", "harness-unexpected-labels", fmt.Sprintf("%d %s / %d %s", r1.Status, r1.XStatus, r2.Status, r2.XStatus), nil, kase, nil)
+							continue
+						}
+						if e1, e2 := r1.Header.Get("Content-Encoding"), r2.Header.Get("Content-Encoding"); e1 != e2 {
+							c.Violation("fill-request-like-hits", fmt.Sprintf("fill-request-%q-hit-%q", e1, e2), fmt.Sprintf("origin %q, %d bytes, client %q: the request that filled the cache got Content-Encoding %q, the hit right after it %q", oenc, L, ae, e1, e2), nil, kase, nil)
+						} else if !bytes.Equal(r1.Body, r2.Body) {
+							c.Violation("fill-request-like-hits", "fill-request-compressed-separately", fmt.Sprintf("origin %q, %d bytes, client %q: same Content-Encoding %q but other bytes (%d vs %d) than the stored variant the hit delivers", oenc, L, ae, e1, len(r1.Body), len(r2.Body)), nil, kase, nil)
+						}
+					}
+				}
+			}
+			st.States, st.Transitions, st.Nontrivial = st.Execs*2, st.Execs*2, st.Execs
 			st.NOutcomes = int(st.Execs)
 		}
 		if c.Want("store-once") && c.Shard == 0 {
